@@ -46,7 +46,7 @@ T_Read ==
   /\ LET exp == W!Projection(Rec[l].m, Rec[l].starts)
          idl == Ideal!Projection(Rec[l].m, Rec[l].starts)
          obs == Rec[l].proj
-     IN /\ Matches(exp, idl, obs)
+     IN /\ (IF Matches(exp, idl, obs) THEN TRUE ELSE FALSE)   \* one evaluation, no action splitting
         /\ used' = used \cup
              (IF exp.short THEN {}
               ELSE (IF obs.cname # idl.cname THEN {"D_cname_ancount_overflow"} ELSE {})
